@@ -63,6 +63,7 @@ def run(model, res, tier):
     H.borrow(res, 'R10', 'column converters', lambda tmp: c19._r3(model, tmp, cm))
     H.borrow(res, 'R10', 'row converters', lambda tmp: c19._r4(model, tmp, cm))
     H.borrow(res, 'R10', 'recomposition', lambda tmp: c19._r5(model, tmp, cm))
+    H.borrow(res, 'R10', 'constant rows', lambda tmp: c19._r9_tables(model, tmp, cm))
     from . import c20
     H.borrow(res, 'R11', 'event emitter', lambda tmp: c20.emitter_rules(model, tmp))
 
